@@ -1537,6 +1537,8 @@ class ImportanceNestedSampler(BaseNestedSampler):
         while True:
             if self.reached_tolerance and self.iteration >= self.min_iteration:
                 break
+            if self.iteration >= self.max_iteration:
+                break
 
             self._compute_gradient()
 
